@@ -258,6 +258,31 @@ func (r *Raft) runFSM() {
 			snapshot(req)
 
 		case <-r.shutdownCh:
+			// Answer what is still queued: nobody will apply it any more.
+			r.failQueuedFSMRequests()
+			return
+		}
+	}
+}
+
+// failQueuedFSMRequests answers the requests that sit in the buffered queue in
+// front of the FSM routine once that routine stops. The main loop calls it as
+// well when it exits: it may have queued a batch after the FSM routine left.
+func (r *Raft) failQueuedFSMRequests() {
+	for {
+		select {
+		case ptr := <-r.fsmMutateCh:
+			switch req := ptr.(type) {
+			case []*commitTuple:
+				for _, ct := range req {
+					if ct.future != nil {
+						ct.future.respond(ErrRaftShutdown)
+					}
+				}
+			case *restoreFuture:
+				req.respond(ErrRaftShutdown)
+			}
+		default:
 			return
 		}
 	}
